@@ -1,7 +1,11 @@
 use crate::builders::batch_tools::cbor_calculator::CborCalculator;
 use crate::serialization::map_names::WitnessSetNames;
 use crate::*;
+#[cfg(not(feature = "verif-hooks"))]
 use std::collections::HashSet;
+#[cfg(feature = "verif-hooks")]
+#[allow(unused_imports)]
+use crate::verif_hooks::{HashSet, SimNew};
 use crate::builders::fakes::{fake_raw_key_public, fake_raw_key_sig};
 use crate::fakes::fake_bootstrap_witness;
 
